@@ -365,6 +365,82 @@ func handleMiddlewareScenario(entry string) *mc.Scenario {
 	}
 }
 
+// sharedSequenceScenario: one sequence value obtained from an Iter (documented as safe for concurrent use) is
+// ranged over by two threads at the same time, with a scheduling point in every loop body: each thread must
+// see exactly what a lone pass sees.
+func sharedSequenceScenario(kind string) *mc.Scenario {
+	return &mc.Scenario{
+		Name:     "two threads ranging over one " + kind + " sequence value",
+		Describe: "routes GET /a /b /c/d /c/e, POST /p; seq := Iter()." + kind + " taken once; both threads range over seq with a scheduling point per element",
+		Build: func() *mc.Instance {
+			f, err := fox.New()
+			if err != nil {
+				panic(err)
+			}
+			for _, p := range []string{"/a", "/b", "/c/d", "/c/e"} {
+				f.MustHandle("GET", p, fx.VerHandler(1))
+			}
+			f.MustHandle("POST", "/p", fx.VerHandler(1))
+			it := f.Iter()
+			var run func(visit func(string))
+			switch kind {
+			case "Methods":
+				seq := it.Methods()
+				run = func(visit func(string)) {
+					for m := range seq {
+						visit(m)
+					}
+				}
+			default:
+				var seq func(func(string, *fox.Route) bool)
+				switch kind {
+				case "All":
+					seq = it.All()
+				case "Prefix":
+					seq = it.Prefix(it.Methods(), "/")
+				case "Routes":
+					seq = it.Routes(it.Methods(), "/c/d")
+				case "Reverse":
+					seq = it.Reverse(it.Methods(), "", "/c/e")
+				}
+				run = func(visit func(string)) {
+					for m, rt := range seq {
+						visit(m + " " + rt.Pattern())
+					}
+				}
+			}
+			var want []string
+			run(func(s string) { want = append(want, s) })
+			got := make([][]string, 2)
+			body := func(t int) func() {
+				return func() {
+					run(func(s string) {
+						got[t] = append(got[t], s)
+						vs.Step("loop body")
+					})
+				}
+			}
+			return &mc.Instance{
+				Bodies: []func(){body(0), body(1)},
+				Check: func(x *mc.Exec) (string, string, string) {
+					if x.S.Deadlock {
+						return "deadlock", "deadlock", x.S.DeadInfo
+					}
+					for t := 0; t < 2; t++ {
+						if pv, stk := x.S.PanicOf(t); pv != nil {
+							return "panic", "panic", fmt.Sprintf("thread %d: %v\n%s", t, pv, mc.NormStack(stk, 10))
+						}
+						if strings.Join(got[t], ",") != strings.Join(want, ",") {
+							return "mixed", "shared-sequence-broken", fmt.Sprintf("thread %d saw [%s] ranging over the shared %s sequence, a lone pass sees [%s]", t, strings.Join(got[t], ","), kind, strings.Join(want, ","))
+						}
+					}
+					return "ok", "", ""
+				},
+			}
+		},
+	}
+}
+
 func serveScenarios() []*mc.Scenario {
 	var out []*mc.Scenario
 	for _, n := range []int{0, 3, 5, 6} {
@@ -372,6 +448,9 @@ func serveScenarios() []*mc.Scenario {
 	}
 	for _, e := range []string{"Route.HandleMiddleware", "Route.Handle", "ServeHTTP"} {
 		out = append(out, handleMiddlewareScenario(e))
+	}
+	for _, k := range []string{"All", "Prefix", "Routes", "Reverse", "Methods"} {
+		out = append(out, sharedSequenceScenario(k))
 	}
 	for i, a := range serveKinds {
 		for _, b := range serveKinds[i:] {
